@@ -1622,6 +1622,7 @@ def compile_function_lambda(compiler, expr, root, is_async, tp, params, body):
         for param in (posonly or []) + args + kwonly + [rest, kwargs]
     )
     args, ret = compile_lambda_list(compiler, params)
+    body_forms = body
     with compiler.local_state(), compiler.scope.create(ScopeFn, args, is_async) as scope:
         body = compiler._compile_branch(body)
 
@@ -1633,7 +1634,7 @@ def compile_function_lambda(compiler, expr, root, is_async, tp, params, body):
     node = asty.AsyncFunctionDef if is_async else asty.FunctionDef
     name = compiler.get_anon_var()
     ret += compile_function_node(
-        compiler, expr, node, [], tp, name, args, returns, body, scope
+        compiler, expr, node, [], tp, name, args, returns, body, scope, body_forms
     )
 
     # return its name as the final expr
@@ -1655,16 +1656,29 @@ def compile_function_def(compiler, expr, root, is_async, decorators, tp, name, p
     ret += ret2
     name = mangle(compiler._nonconst(name))
     compiler.scope.define(name)
+    body_forms = body
     with compiler.local_state(), compiler.scope.create(ScopeFn, args, is_async) as scope:
         body = compiler._compile_branch(body)
 
     return ret + compile_function_node(
-        compiler, expr, node, decorators, tp, name, args, returns, body, scope
+        compiler, expr, node, decorators, tp, name, args, returns, body, scope, body_forms
     )
 
 
-def compile_function_node(compiler, expr, node, decorators, tp, name, args, returns, body, scope):
+def compile_function_node(compiler, expr, node, decorators, tp, name, args, returns, body, scope, body_forms):
     ret = Result()
+
+    if (
+        body.stmts
+        and isinstance(body.stmts[0], ast.Expr)
+        and isinstance(body.stmts[0].value, ast.Constant)
+        and isinstance(body.stmts[0].value.value, str)
+        and not (body_forms and isinstance(body_forms[0], String))
+    ):
+        # The first statement is a string, but the first body form
+        # isn't a string literal (as in `(defn f [] (do) "x" 1)`), so
+        # keep Python from taking the string for a docstring.
+        body.stmts.insert(0, asty.Pass(expr))
 
     if body.expr:
         # implicitly return final expression,
